@@ -43,6 +43,16 @@ def run(c):
         "injected through the policy's debug-log output, the context's Deadline method read by the miekg client, or an empty server list); "
         "the delivery's context ends once nobody can complete the future any more (the harness ends it when the future is empty and no goroutine "
         "started by PrepareConn is left; Future.GetContext returns a value that is set without looking at the context)",
+        "the harness uses the DANE policy's delivery object only through danePolicy.Start and the methods of module.DeliveryMXAuthPolicy "
+        "(PrepareConn, CheckConn); how the pending discovery is kept is not looked into. Op check obtains the discovery result it is about by "
+        "running the real discovery against the scripted server (the error class shipped to the model is the one the scripted world produces "
+        "by construction); net.DNSError values, which ExtResolver cannot return, are no longer fed to CheckConn",
+        "the two root CAs of the harness are installed as the SYSTEM trust store of the test process (SSL_CERT_FILE / SSL_CERT_DIR set in a "
+        "package-level initialiser and the pool loaded at once, before any test; self-check per test: exactly the PKIX-valid chains verify "
+        "with Roots == nil): crypto/x509's fall-back from a nil pool to the system pool is observable; the model's x509 tables are computed "
+        "with explicit (possibly empty) pools",
+        "the MX host name reaches PrepareConn and CheckConn as the same string (attemptMX: record.Host both times); its spellings: MX record "
+        "target (fully qualified, zone's case) and implicit MX (recipient domain as typed) — obtained in op attempt from the real lookupMX",
         "resolver ops: the miekg/dns client and wire format are primitives (Transport parameter of the model; the tree's is plain UDP without "
         "TCP fall-back); which configured address is a loopback address is known by construction (127.0.0.1, 127.0.0.2: yes; 0.0.0.0: no)",
     ]
@@ -67,6 +77,12 @@ def run(c):
         "and attempt (client trusting both roots: first handshake verified). A TLSA discovery that crashes (cconn, rconn with an empty server list, "
         "attempt): resolver without servers, panicking log output after the lookups, panic inside the resolver library at the k-th step, in worlds "
         "with and without published records, on plaintext / encrypted / X.509-authenticated connections. "
+        "The MX host name in 5 spellings (MX record target with trailing dot / implicit MX of a domain without MX RRset: no dot; lower, mixed, upper "
+        "case) in check, conn, cconn and attempt (there also obtained from the real lookupMX against the scripted server), pinned RRsets x "
+        "plaintext / non-matching / matching connection under every spelling. The harness roots are the system trust store of the test "
+        "process: DANE-TA records matching no presented CA certificate (stale pin, pin of an absent CA, pin matching only the non-CA leaf) x "
+        "chains valid / not valid under the system store (verify, with and without VerifiedChains; attempt with a client configuration "
+        "without RootCAs). Ordered pairs of record forms where the second record carries the first form's association data. "
         "Each op runs the real function and the Lean model (primitive results shipped as tables); distinct = distinct op lines",
         explanation="theorems for all record lists, chains, handshake histories and primitive behaviours; model tied to dane.go/security.go/"
         "connect.go/dnssec.go by differential runs; "
